@@ -8,3 +8,17 @@ open RawPanelVerif.C16
 #print axioms padding_never_modified
 #print axioms outside_canvas_dropped
 #print axioms pinned_row_wrap_counterexample
+#print axioms step_tail_holds
+#print axioms applyCmd_wf
+#print axioms reachable_wf_cmds
+#print axioms all_steps_hold_cmds
+#print axioms no_panic
+#print axioms no_panic_seq
+#print axioms strWidth_no_panic
+#print axioms work_bound
+#print axioms int64_safe
+#print axioms strWidth_int64_safe
+#print axioms newCanvas_small
+#print axioms circ_quadrant
+#print axioms fcirc_side
+#print axioms drawBitmap_exact
